@@ -29,6 +29,7 @@ Expect(c) ==
                  "typed_trailing", "typed_trailing_utf8", "json_trailing"} -> 5      \* ParseError (a complete JSON value followed by more bytes is not a JSON body)
       [] c \in {"unknown_path", "registry_missing", "mount_sibling_missing"} -> 6                                \* MethodNotFound
       [] c = "handler_error" -> 4096                                                    \* the handler's own code
+      [] c = "custom_err" -> 4100                                                       \* an error frame the custom handler built itself
 \* the handler tag that must run exactly once ("" = no user handler runs: rejected before dispatch, or its body is never decoded)
 Invokes(c) ==
     CASE c \in {"json_ok", "json_beve_ok", "json_utf8_ok"} -> "json"
@@ -38,6 +39,7 @@ Invokes(c) ==
       [] c = "slice_ok" -> "slice"
       [] c = "sliceref_ok" -> "sliceref"
       [] c = "custom" -> "custom"
+      [] c = "custom_err" -> "customerr"
       [] OTHER -> ""
 OwnQuery == "2f6f776e2d7175657279"          \* "/own-query": the custom handler sets its own response query
 
@@ -48,7 +50,7 @@ Summary(r) == <<r.ec, r.qfmt, r.bfmt, r.body>>
 Ids(s) == [i \in 1..Len(s) |-> s[i].id]
 Inline(rq) == ~(transport = "ws_offreader" /\ rq.offreader)
 Count(s, x) == Cardinality({i \in 1..Len(s) : s[i] = x})
-Tags == {"json", "jsonerr", "typed", "ctx", "slice", "sliceref", "custom"}
+Tags == {"json", "jsonerr", "typed", "ctx", "slice", "sliceref", "custom", "customerr"}
 
 Verdict(idle) ==
     LET wantInv == SelectSeq([i \in 1..Len(reqs) |-> Invokes(reqs[i].class)], LAMBDA t : t # "")
@@ -61,7 +63,7 @@ Verdict(idle) ==
     ELSE IF \E k \in 1..Len(resps) : ~\E i \in 1..Len(reqs) : reqs[i].id = resps[k].id THEN "response_for_unknown_id"
     ELSE IF \E i \in 1..Len(reqs) : ~reqs[i].notify /\ RespsOf(reqs[i].id)[1].ec # Expect(reqs[i].class) THEN "error_code"
     ELSE IF \E i \in 1..Len(reqs) : ~reqs[i].notify /\
-              RespsOf(reqs[i].id)[1].query # (IF reqs[i].class = "custom" THEN OwnQuery ELSE reqs[i].query) THEN "echo_query"
+              RespsOf(reqs[i].id)[1].query # (IF reqs[i].class \in {"custom", "custom_err"} THEN OwnQuery ELSE reqs[i].query) THEN "echo_query"
     ELSE IF \E k \in 1..Len(resps) : resps[k].notify # 0 THEN "response_marked_notify"
     ELSE IF transport # "ws_offreader" /\ invs # wantInv THEN "invocations"
     ELSE IF transport = "ws_offreader" /\ \E t \in Tags : Count(invs, t) # Count(wantInv, t) THEN "invocations"
